@@ -277,7 +277,8 @@ def namesOk (g : Grammar) (t : Table) : Bool :=
 /-- Well-formedness of a (grammar, table) pair: decidable, checked on every real dump by the driver. -/
 def WF (g : Grammar) (t : Table) : Bool := genOk g t && namesOk g t
 
-/-- `none`: the generator panicked before writing the file -/
+/-- `none`: the generator panics before writing the file, or (a Reduce by an AUG/AUGL production,
+    rows of the wrong width) writes a file that cannot compile -/
 def arrays (g : Grammar) (t : Table) : Option ArrCode :=
   if genOk g t then some (arraysCore g t) else none
 
